@@ -222,6 +222,80 @@ theorem entryBlocks_sat_eq (A lo hi : Int) (hA : 0 ≤ A) (hlo0 : lo ≤ 0) (hhi
       unfold entryBlock
       rw [dotTiles_sat_eq A lo hi hA hlo0 hhi0 hL hH _ _ (ha.take kc) (hb.take kc)]
 
+/-! ### gemv path -/
+
+theorem dot_append : ∀ (a1 b1 a2 b2 : List Int), a1.length = b1.length →
+    dot (a1 ++ a2) (b1 ++ b2) = dot a1 b1 + dot a2 b2
+  | [], [], _, _, _ => by simp [dot]
+  | x :: xs, y :: ys, a2, b2, h => by
+    have ih := dot_append xs ys a2 b2 (by simpa using h)
+    simp only [List.cons_append, dot, ih]
+    grind
+  | [], _ :: _, _, _, h => by simp at h
+  | _ :: _, [], _, _, h => by simp at h
+
+theorem gemvDot_false_eq_dot (tile : Nat) (a b : List Int) (h : a.length = b.length) :
+    gemvDot false tile a b = dot a b := by
+  unfold gemvDot
+  have ht : (a.take (a.length / tile * tile)).length = (b.take (a.length / tile * tile)).length := by
+    simp [List.length_take, h]
+  rw [dotTiles_false_eq_dot _ _ _ rfl ht.symm]
+  have := dot_append (a.take (a.length / tile * tile)) (b.take (a.length / tile * tile))
+    (a.drop (a.length / tile * tile)) (b.drop (a.length / tile * tile)) ht
+  rw [List.take_append_drop, List.take_append_drop] at this
+  exact this.symm
+
+theorem entryGemvBlock_false_eq_dotZ (tile : Nat) (za zb : Int) (a b : List Int)
+    (h : a.length = b.length) : entryGemvBlock false tile za zb a b = dotZ za zb a b := by
+  unfold entryGemvBlock
+  rw [gemvDot_false_eq_dot tile a b h, dotZ_eq_factored za zb a b h]
+  grind
+
+theorem entryGemvBlocks_false_eq_dotZ (tile kc : Nat) (hkc : 0 < kc) (za zb : Int) :
+    ∀ (fuel : Nat) (a b : List Int), a.length = b.length → a.length ≤ fuel →
+      entryGemvBlocks false tile kc za zb fuel a b = dotZ za zb a b
+  | 0, a, b, _, hf => by
+    have : a = [] := List.length_eq_zero_iff.mp (by omega)
+    subst this
+    simp [entryGemvBlocks, dotZ_nil_left]
+  | fuel + 1, a, b, h, hf => by
+    unfold entryGemvBlocks
+    by_cases he : a.isEmpty = true
+    · have : a = [] := by simpa using he
+      subst this
+      simp [dotZ_nil_left]
+    · simp only [he]
+      have hne : a ≠ [] := by simpa using he
+      have hpos : 0 < a.length := List.length_pos_iff.mpr hne
+      have ht : (a.take kc).length = (b.take kc).length := by simp [List.length_take, h]
+      have hd : (a.drop kc).length = (b.drop kc).length := by simp [List.length_drop, h]
+      have hdf : (a.drop kc).length ≤ fuel := by simp [List.length_drop]; omega
+      rw [entryGemvBlock_false_eq_dotZ tile za zb _ _ ht,
+        entryGemvBlocks_false_eq_dotZ tile kc hkc za zb fuel _ _ hd hdf]
+      have := dotZ_append za zb (a.take kc) (b.take kc) (a.drop kc) (b.drop kc) ht
+      rw [List.take_append_drop, List.take_append_drop] at this
+      exact this.symm
+
+theorem gemvDot_sat_eq (A lo hi : Int) (hA : 0 ≤ A) (hlo0 : lo ≤ 0) (hhi0 : 0 ≤ hi)
+    (hL : -32768 ≤ A * lo + A * lo) (hH : A * hi + A * hi ≤ 32767) (tile : Nat) (a b : List Int)
+    (ha : AllIn 0 A a) (hb : AllIn lo hi b) : gemvDot true tile a b = gemvDot false tile a b := by
+  unfold gemvDot
+  rw [dotTiles_sat_eq A lo hi hA hlo0 hhi0 hL hH _ _ (ha.take _) (hb.take _)]
+
+theorem entryGemvBlocks_sat_eq (A lo hi : Int) (hA : 0 ≤ A) (hlo0 : lo ≤ 0) (hhi0 : 0 ≤ hi)
+    (hL : -32768 ≤ A * lo + A * lo) (hH : A * hi + A * hi ≤ 32767) (tile kc : Nat) (za zb : Int) :
+    ∀ (fuel : Nat) (a b : List Int), AllIn 0 A a → AllIn lo hi b →
+      entryGemvBlocks true tile kc za zb fuel a b = entryGemvBlocks false tile kc za zb fuel a b
+  | 0, _, _, _, _ => rfl
+  | fuel + 1, a, b, ha, hb => by
+    unfold entryGemvBlocks
+    split
+    · rfl
+    · rw [entryGemvBlocks_sat_eq A lo hi hA hlo0 hhi0 hL hH tile kc za zb fuel _ _ (ha.drop kc)
+        (hb.drop kc)]
+      unfold entryGemvBlock
+      rw [gemvDot_sat_eq A lo hi hA hlo0 hhi0 hL hH tile _ _ (ha.take kc) (hb.take kc)]
+
 /-! ### Magnitude bound and 32-bit wrapping -/
 
 theorem dotZ_bound (za zb : Int) (hza : 0 ≤ za ∧ za ≤ 255) (hzb : -128 ≤ zb ∧ zb ≤ 127) :
